@@ -516,6 +516,9 @@ def tlc_must_pass(module, cfg, **kw) -> TLCResult:
 
 # --------------------------------------------------------------------------- verdicts
 
+_current_check = None
+
+
 class Check:
     """Bookkeeping for one property check run."""
 
@@ -536,6 +539,8 @@ class Check:
         self.rule = ""
         self.exhaustive = False
         self.known = [k for k in load_known_findings() if k.get("property") == pid and k.get("status", "open") == "open"]
+        global _current_check
+        _current_check = self
 
     # -- coverage
     def add_tlc(self, r: TLCResult):
@@ -646,6 +651,21 @@ def finding_matches(k: dict, witness: dict) -> bool:
     return True
 
 
+def _exit_after_failure():
+    """An infrastructure failure ends the run with exit 2 - unless the real tool had already shown a
+    violation before it happened: that verdict stands (it was printed with its replay directory), the
+    evidence file is written for the part that ran, and the exit status is 1."""
+    c = _current_check
+    if c is not None and c.violations:
+        c.extra["aborted_after_violation"] = True
+        try:
+            c.finish()
+        except Exception:
+            pass
+        sys.exit(1)
+    sys.exit(2)
+
+
 def main_wrapper(fn):
     """Run a check function(tier, seed) -> exit code with the exit-2 policy."""
     import argparse
@@ -668,12 +688,12 @@ def main_wrapper(fn):
         rc = fn(a.tier, a.seed, a.replay) if fn.__code__.co_argcount >= 3 else fn(a.tier, a.seed)
     except Inconclusive as e:
         log("INCONCLUSIVE:", e)
-        sys.exit(2)
+        _exit_after_failure()
     except SystemExit:
         raise
     except BaseException:  # a bug in the machinery is never a verdict
         import traceback
         traceback.print_exc()
         log("INCONCLUSIVE: internal error in the check")
-        sys.exit(2)
+        _exit_after_failure()
     sys.exit(rc)
